@@ -10,6 +10,7 @@ import (
 	"path/filepath"
 	"strconv"
 	"strings"
+	"syscall"
 
 	"github.com/johannesboyne/gofakes3"
 	"github.com/spf13/afero"
@@ -155,7 +156,7 @@ func invalidKeyError(key string) error {
 // or one of its parent paths is a file (another key). A directory tree cannot
 // hold both, and replacing one by the other would destroy the other key.
 func keyConflict(fs afero.Fs, objectPath string) (bool, error) {
-	if isDir, err := afero.DirExists(fs, filepath.FromSlash(objectPath)); err != nil {
+	if isDir, err := dirExists(fs, filepath.FromSlash(objectPath)); err != nil {
 		return false, err
 	} else if isDir {
 		return true, nil
@@ -164,11 +165,28 @@ func keyConflict(fs afero.Fs, objectPath string) (bool, error) {
 		stat, err := fs.Stat(filepath.FromSlash(dir))
 		if err == nil && !stat.IsDir() {
 			return true, nil
-		} else if err != nil && !os.IsNotExist(err) {
+		} else if err != nil && !notExist(err) {
 			return false, err
 		}
 	}
 	return false, nil
+}
+
+// notExist reports whether err says that a path does not exist. On a real
+// file system a path below a regular file ("x/b" where x is an object) fails
+// with ENOTDIR rather than ENOENT; for an object store that is just another
+// key that was never written.
+func notExist(err error) bool {
+	return os.IsNotExist(err) || errors.Is(err, syscall.ENOTDIR)
+}
+
+// dirExists is afero.DirExists with notExist's idea of absence.
+func dirExists(fs afero.Fs, path string) (bool, error) {
+	isDir, err := afero.DirExists(fs, path)
+	if err != nil && notExist(err) {
+		return false, nil
+	}
+	return isDir, err
 }
 
 func keyConflictError(key string) error {
